@@ -365,7 +365,11 @@ Inductive case :=
 | CInjected (f : fn) (den : Z) (draws : list Z) (rows : nat) (widths : option (list Z))
             (expected : result (list value))
 (* free draws: every produced value must be one the model can produce *)
-| CFree (f : fn) (vals : list value).
+| CFree (f : fn) (vals : list value)
+(* arguments that are formulas evaluated anew for every row (e.g. weights depending on `id`):
+   one (function, draw, produced value) per row; and the free-draw variant *)
+| CPerRow (den : Z) (rows : list (fn * Z * value))
+| CPerRowFree (rows : list (fn * value)).
 
 Definition check_case (c : case) : bool :=
   match c with
@@ -376,4 +380,8 @@ Definition check_case (c : case) : bool :=
        | Some ws => forallb (fun w => option_eqb Z.eqb (Some w) (expected_width f)) ws
        end
   | CFree f vals => forallb (possible f) vals
+  | CPerRow den rows =>
+    forallb (fun r => let '(f, d, v) := r in
+                      result_eqb value_eqb (through_recipe (run_fn f (Some d) den)) (Ok v)) rows
+  | CPerRowFree rows => forallb (fun r => possible (fst r) (snd r)) rows
   end.
